@@ -21,6 +21,21 @@
 // and the documentation of vbi_event_handler_register() ("called in
 // registration order", "when the handler with user_data is already
 // registered, its event_mask will be changed").
+//
+// Last clause ("Teletext pages are acquired exactly while at least one
+// registered handler requests Teletext page events"): every Teletext packet
+// this world transmits - the probe pages and, in about half of the runs, a
+// continuous multi-magazine page carousel ("ttx" ops: n packets of a stream
+// that runs across all enable / disable boundaries, so they fall anywhere
+// in a page) - passes through a reference receiver with an acquisition
+// gate, written from EN 300 706 (a page is the header and the packets of its
+// magazine up to the next header of that magazine; rows not retransmitted
+// persist unless the header carries C4) and from the clause.  Every
+// VBI_EVENT_TTX_PAGE raised by the decoder and the cached content of the
+// page concerned (all rows, text compared) are checked at every header; all
+// page numbers ever transmitted are audited at the end of the run.  The
+// accepted outcomes for pages that straddle a boundary are listed at
+// model_header_pre().
 #include <cstdio>
 #include <cstring>
 #include <ctime>
@@ -85,6 +100,26 @@ struct St {
   int page_ctr[2] = {1, 1};
   int cc_style = 0;
   Fnv shape;
+  // ---- Teletext acquisition reference (last clause of the statement), see model_header_pre() ----
+  struct TxRow { int y; bool en; uint8_t c[40]; };
+  // one transmission of one page: its header and the packets of its magazine up to the next header of that magazine
+  struct TxPage { int pgno = 0, serial = 0, flips_at_hdr = 0; bool erase = false, hdr_en = false, hdr_flip = false; std::vector<TxRow> rows; };
+  struct Image {  // what a receiver holds for one page number (rows 1..24 as transmitted; blank where never received)
+    bool have = false; bool have_row[25]; uint8_t row[25][40];
+    Image() { memset(have_row, 0, sizeof have_row); memset(row, 0x20, sizeof row); }
+  };
+  std::vector<TxPage> txs;
+  int on_air[8] = {-1, -1, -1, -1, -1, -1, -1, -1};  // per magazine: the transmission on air (index into txs), -1 none / time filling
+  int cand[8] = {-1, -1, -1, -1, -1, -1, -1, -1};    // per magazine: the last page whose header passed while TTX_PAGE was requested
+  std::map<int, Image> stored;                      // page number -> content held by the gated reference receiver
+  std::set<int> sent_pgnos;
+  std::vector<std::pair<int, int>> ttx_ev;          // VBI_EVENT_TTX_PAGE (pgno, subno) raised during the vbi_decode() in progress
+  int exp_kind = 0, exp_pgno = 0, exp_seen = 0;
+  int pages_must = 0, pages_may = 0, pages_may_stored = 0, pages_zombie = 0, pages_hdr_in_gap = 0, rows_in_gap = 0, content_checks = 0;
+  // ---- the continuous transmission ("ttx" ops) ----
+  struct StreamMag { int my_tx = -1, pos = 0, count = 0; std::vector<int> pending; };
+  uint64_t sseed = 0, sstep = 0; int smag[8] = {3, 0, 0, 0, 0, 0, 0, 0}, nsm = 1, spages = 2, srows = 3, stream_packets = 0;
+  StreamMag sm[8];
 
   int fn_of(int id) const { return kLayout[layout][0][id]; }
   int user_of(int id) const { return kLayout[layout][1][id]; }
@@ -93,7 +128,20 @@ struct St {
   void union_changed() {
     bool on = false;
     for (auto& x : lst) if (x.mask & VBI_EVENT_TTX_PAGE) on = true;
-    if (on != ttx_on) { ttx_on = on; ttx_flips++; ctx->log("model ttx %s", on ? "on" : "off"); }
+    if (on != ttx_on) {
+      ttx_on = on; ttx_flips++; ctx->log("model ttx %s", on ? "on" : "off");
+      ctx->count(in_callback ? "fault_ttx_flip_in_callback" : "fault_ttx_flip_api");
+      bool mid = false;  // a page is on air (header sent, next header of its magazine not yet)
+      for (int m = 0; m < 8; m++) if (on_air[m] >= 0) mid = true;
+      if (mid) ctx->count(on ? "fault_ttx_on_midpage" : "fault_ttx_off_midpage");
+      if (on) {  // other consumers stay registered across the gap: the decoder as a whole never went idle
+        int others = 0;
+        for (auto& x : lst) others |= x.mask & ~VBI_EVENT_TTX_PAGE;
+        for (auto& x : lst) if (!(x.mask & VBI_EVENT_TTX_PAGE)) { ctx->count("ttx_on_beside_other_handlers"); break; }
+        if (others & (VBI_EVENT_NETWORK | VBI_EVENT_NETWORK_ID | VBI_EVENT_LOCAL_TIME | VBI_EVENT_PROG_ID)) ctx->count("ttx_on_beside_bsdata_consumer");
+        if (others & (VBI_EVENT_CAPTION | VBI_EVENT_TRIGGER | VBI_EVENT_ASPECT | VBI_EVENT_PROG_INFO)) ctx->count("ttx_on_beside_caption_consumer");
+      }
+    }
   }
   // ---- model transitions (the documented behaviour of the four entry points) ----
   void m_remove_at(int pos) { ever_removed[lst[(size_t)pos].id] = true; lst.erase(lst.begin() + pos); }
@@ -167,8 +215,11 @@ static int do_legacy_remove(int id) {
 }
 
 // ---- delivery oracle ---------------------------------------------------------
-static void delivery_begin(int type) {
+static void delivery_begin(const vbi_event* ev) {
   St& s = *g;
+  int type = ev->type;
+  // page announcements of the Teletext decoder: judged by the acquisition reference when the vbi_decode() call returns
+  if (s.in_decode && type == VBI_EVENT_TTX_PAGE) s.ttx_ev.push_back({ev->ev.ttx_page.pgno, ev->ev.ttx_page.subno});
   s.in_delivery = true; s.cur_type = type; s.last_seq = 0; s.cur_calls = 0; s.cur_actions = 0;
   for (auto& x : s.lst) { x.st = (x.mask & type) ? ST_MUST : ST_NOT; x.called = false; }
   s.ctx->log("raise type=%x handlers=%zu", (unsigned)type, s.lst.size());
@@ -347,6 +398,241 @@ static void header_text(int pgno, uint8_t out[32]) {
   memcpy(out, t, 32);
 }
 
+// ---- the acquisition reference ---------------------------------------------------
+// Reference receiver with an acquisition gate, from EN 300 706 and the last sentence of the statement.  A page
+// transmission is its header plus the packets of its magazine up to the next header of that magazine (parallel mode,
+// C11 = 0, throughout).  The gate is open exactly while the model's handler list contains a mask with TTX_PAGE.
+//
+//  * CLEAN page: header, all rows and the terminating header were transmitted with the gate open and the gate never
+//    moved in between.  "Pages are acquired ... while a handler requests": it MUST be announced (one TTX_PAGE event,
+//    this page number) when the terminating header is decoded and the cache must then show exactly: its own rows,
+//    over the rows the receiver held for this page number before unless the header carried C4 (erase).
+//  * page whose header was transmitted with the gate CLOSED: never acquired - no event, the cache keeps what it held
+//    for this number, in particular nothing is built from the rows that follow after the gate opens.
+//  * page whose header passed with the gate open and whose span (header .. the next header of its magazine that
+//    passes with the gate open) contains a movement of the gate - also when the movement was made by a handler while
+//    the header itself was being decoded: the statement says "exactly while", it does not say that a page must be
+//    given up when a part of it was missed, nor that it must be kept.  Accepted: (a) the page is dropped (no event,
+//    cache unchanged for this number) or (b) it is announced once and the cache shows exactly what passed the gate:
+//    the rows of THIS transmission that were sent with the gate open, over the previous content / blank as above.
+//    Never accepted: a row sent while the gate was closed, a row of another page (the rows of a page whose header
+//    was missed in the gap arrive in the same magazine after the gate opens), a lost row that did pass the gate.
+//  The observed alternative of an uncertain page becomes the reference content for the next transmission.
+//  * with the gate closed nothing is announced and the cache does not change (audit of every page number
+//    transmitted, at the end of the run).
+enum { EXP_NONE = 0, EXP_MUST, EXP_MAY };
+struct HdrEval { int kind = EXP_NONE, c = -1, orphan = -1, flips0 = 0; bool en = false; St::Image exp_new; };
+
+static void check_ttx_events() {
+  St& s = *g;
+  int kind = s.exp_kind, pgno = s.exp_pgno;
+  s.exp_kind = EXP_NONE; s.exp_seen = 0;
+  if (s.ctx->failed) return;
+  for (auto& e : s.ttx_ev) {
+    s.ctx->log("ttx event %x.%x", e.first, e.second);
+    if (kind != EXP_NONE && e.first == pgno && e.second == 0) { s.exp_seen++; continue; }
+    if (!s.ttx_on && s.ttx_ev.size() == 1 && kind == EXP_NONE)
+      s.ctx->fail("oracle:ttx-acquired-without-handler", "VBI_EVENT_TTX_PAGE %x.%x raised while no handler requests TTX_PAGE", e.first, e.second);
+    else
+      s.ctx->fail("oracle:ttx-page-spurious", "VBI_EVENT_TTX_PAGE %x.%x raised: no transmission of this page ended here that passed while a handler requested TTX_PAGE (%s)",
+                  e.first, e.second, kind == EXP_NONE ? "none could end here" : "another page ended here");
+    return;
+  }
+  if (s.exp_seen > 1) { s.ctx->fail("oracle:ttx-page-twice", "page %x announced %d times for one transmission", pgno, s.exp_seen); return; }
+  if (kind == EXP_MUST && s.exp_seen == 0)
+    s.ctx->fail("oracle:ttx-not-acquired", "page %x: header, rows and terminating header all transmitted while a handler requested TTX_PAGE, the set of requesters unchanged "
+                "in between: no VBI_EVENT_TTX_PAGE", pgno);
+}
+
+// does the cache show `want` for this page number (rows 1-23 compared as text)?  On a difference: class and detail.
+static bool cache_shows(int pgno, const St::Image& want, std::string& cls, std::string& why) {
+  St& s = *g;
+  vbi_page vp; vbi_bool ok;
+  budget_begin("vbi_fetch_vt_page", 20000000);
+  { SutScope ss; ok = vbi_fetch_vt_page(s.dec, &vp, pgno, VBI_ANY_SUBNO, VBI_WST_LEVEL_1, 25, FALSE); }
+  budget_end();
+  s.content_checks++;
+  char b[400];
+  if (!ok) {
+    if (!want.have) return true;
+    cls = "oracle:ttx-not-acquired"; why = "not in the cache"; return false;
+  }
+  bool good = true;
+  if (!want.have) { good = false; cls = "oracle:ttx-cache-spurious"; why = "in the cache although no transmission of it passed while a handler requested TTX_PAGE"; }
+  for (int y = 1; y <= 23 && good; y++) {
+    char shown[41], exp[41]; bool same = true;
+    for (int col = 0; col < 40; col++) {
+      unsigned u = vp.text[y * vp.columns + col].unicode;
+      unsigned w = want.have_row[y] ? (want.row[y][col] & 0x7Fu) : 0x20u;
+      shown[col] = (u >= 0x20 && u < 0x7F) ? (char)u : '?'; exp[col] = (char)w;
+      if (u != w) same = false;
+    }
+    shown[40] = exp[40] = 0;
+    if (same) continue;
+    good = false;
+    // whose row is it?
+    const char* origin = "text never transmitted in this form";
+    cls = "oracle:ttx-page-content";
+    bool blank = true; for (int col = 0; col < 40; col++) if (shown[col] != ' ') blank = false;
+    if (blank) { cls = "oracle:ttx-row-lost"; origin = "blank"; }
+    else for (auto& t : s.txs) {
+      bool hit = false;
+      for (auto& r : t.rows) {
+        if (memcmp(r.c, shown, 40) != 0) continue;
+        hit = true;
+        if (t.pgno != pgno) { cls = "oracle:ttx-foreign-row"; origin = "a row transmitted as part of ANOTHER page"; }
+        else if (!r.en || !t.hdr_en) { cls = "oracle:ttx-row-from-gap"; origin = !r.en ? "a row transmitted while no handler requested TTX_PAGE" : "a row of a transmission whose header passed while no handler requested TTX_PAGE"; }
+        else { cls = "oracle:ttx-row-stale"; origin = "a row of another transmission of this page"; }
+        snprintf(b, sizeof b, " [page %x transmission #%d row %d]", t.pgno, t.serial, r.y);
+        break;
+      }
+      if (hit) { why = b; break; }
+    }
+    std::string tail = why;
+    snprintf(b, sizeof b, "row %d shows \"%s\" (%s%s), the reference receiver holds \"%s\"", y, shown, origin, tail.c_str(), exp);
+    why = b;
+  }
+  { SutScope ss; vbi_unref_page(&vp); }
+  return good;
+}
+
+static HdrEval model_header_pre(int mag) {
+  St& s = *g;
+  int m = mag & 7;
+  HdrEval e; e.en = s.ttx_on; e.flips0 = s.ttx_flips;
+  if (e.en && s.cand[m] >= 0) {
+    const St::TxPage& c = s.txs[(size_t)s.cand[m]];
+    bool clean = !c.hdr_flip && c.flips_at_hdr == s.ttx_flips;
+    e.c = s.cand[m]; e.kind = clean ? EXP_MUST : EXP_MAY;
+    auto it = s.stored.find(c.pgno);
+    if (!c.erase && it != s.stored.end() && it->second.have) e.exp_new = it->second;
+    e.exp_new.have = true;
+    for (auto& r : c.rows) if (r.en) { e.exp_new.have_row[r.y] = true; memcpy(e.exp_new.row[r.y], r.c, 40); }
+    if (s.on_air[m] != s.cand[m]) { s.pages_zombie++; s.ctx->count("ttx_page_terminating_header_in_gap"); }
+    s.exp_kind = e.kind; s.exp_pgno = c.pgno;
+  }
+  if (s.on_air[m] >= 0 && s.on_air[m] != e.c) e.orphan = s.on_air[m];  // the page on air is not one the receiver got the header of
+  return e;
+}
+
+static void model_header_post(const HdrEval& e, int mag, int pg, bool erase) {
+  St& s = *g;
+  int m = mag & 7;
+  if (s.ctx->failed) return;
+  int seen = s.exp_seen;  // left by check_ttx_events()
+  std::string cls, why;
+  if (e.kind != EXP_NONE) {
+    const St::TxPage& c = s.txs[(size_t)e.c];
+    St::Image old; { auto it = s.stored.find(c.pgno); if (it != s.stored.end()) old = it->second; }
+    bool st = seen == 1;
+    if (e.kind == EXP_MUST) s.pages_must++; else { s.pages_may++; if (st) s.pages_may_stored++; }
+    if (!cache_shows(c.pgno, st ? e.exp_new : old, cls, why)) {
+      s.ctx->fail(cls.c_str(), "page %x (transmission #%d, %s, %s): %s", c.pgno, c.serial,
+                  e.kind == EXP_MUST ? "wholly transmitted while a handler requested TTX_PAGE" : "the set of TTX_PAGE requesters changed during its transmission",
+                  st ? "announced" : "not announced", why.c_str());
+      return;
+    }
+    if (st) s.stored[c.pgno] = e.exp_new;
+    s.ctx->log("ttx page %x #%d %s %s", c.pgno, c.serial, e.kind == EXP_MUST ? "must" : "may", st ? "stored" : "dropped");
+  }
+  if (e.orphan >= 0) {
+    const St::TxPage& o = s.txs[(size_t)e.orphan];
+    if (e.kind == EXP_NONE || o.pgno != s.txs[(size_t)e.c].pgno) {
+      St::Image old; { auto it = s.stored.find(o.pgno); if (it != s.stored.end()) old = it->second; }
+      if (!cache_shows(o.pgno, old, cls, why)) {
+        s.ctx->fail(cls == "oracle:ttx-not-acquired" ? "oracle:ttx-page-content" : cls.c_str(), "page %x (transmission #%d, its header passed while no handler requested TTX_PAGE) ended: %s", o.pgno, o.serial, why.c_str());
+        return;
+      }
+    }
+  }
+  if (pg == 0xFF) {  // time filling header: terminates, opens nothing
+    s.on_air[m] = -1;
+    if (e.en) s.cand[m] = -1;
+    return;
+  }
+  St::TxPage n; n.pgno = mag * 256 + pg; n.serial = (int)s.txs.size(); n.erase = erase;
+  n.hdr_en = e.en; n.hdr_flip = s.ttx_flips != e.flips0; n.flips_at_hdr = s.ttx_flips;
+  if (!e.en) { s.pages_hdr_in_gap++; }
+  s.sent_pgnos.insert(n.pgno);
+  s.txs.push_back(n);
+  s.on_air[m] = n.serial;
+  // while the gate is closed the receiver does not learn of this header: the page it was assembling, if any, stays
+  // its candidate (an uncertain one) until the next header of the magazine that passes
+  if (e.en) s.cand[m] = n.serial;
+}
+
+static void model_row(int mag, int y, const uint8_t chars[40]) {
+  St& s = *g;
+  int m = mag & 7;
+  if (s.on_air[m] < 0 || y < 1 || y > 24) return;  // rows behind a time filling header belong to no page
+  St::TxRow r; r.y = y; r.en = s.ttx_on; memcpy(r.c, chars, 40);
+  if (!r.en) s.rows_in_gap++;
+  s.txs[(size_t)s.on_air[m]].rows.push_back(r);
+}
+
+static void decode_frame(std::vector<vbi_sliced>& fr);
+static vbi_sliced sl_ttx(const uint8_t b[42], int line);
+
+// one header packet = one frame (a handler may change the registrations while it is decoded)
+static void send_header(int mag, int pg, bool erase, int subcode) {
+  St& s = *g;
+  if (s.ctx->failed) return;
+  HdrEval e = model_header_pre(mag);
+  s.ctx->log("tx header %x erase=%d model ttx=%d expect=%d", mag * 256 + pg, erase, s.ttx_on, e.kind);
+  uint8_t text[32]; header_text(mag * 256 + pg, text);
+  ttx::Packet h = ttx::header(mag, pg, subcode, erase ? ttx::C4_ERASE : 0, text);
+  std::vector<vbi_sliced> fr; fr.push_back(sl_ttx(h.b, 7));
+  decode_frame(fr);
+  model_header_post(e, mag, pg, erase);
+}
+static void send_row(int mag, int y, const uint8_t chars[40]) {
+  St& s = *g;
+  if (s.ctx->failed) return;
+  model_row(mag, y, chars);
+  s.ctx->log("tx row %d/%d model ttx=%d", mag, y, s.ttx_on);
+  ttx::Packet rw = ttx::row(mag, y, chars);
+  std::vector<vbi_sliced> fr; fr.push_back(sl_ttx(rw.b, 7 + y));
+  decode_frame(fr);
+}
+
+// the continuous transmission: the next packet of a carousel of `spages` pages in each of `nsm` magazines.  Content is
+// keyed by (stream seed, magazine, ordinal of the page in its magazine), the interleaving of the magazines by the
+// packet ordinal: deleting a "ttx" op shortens the transmission, it does not reshuffle it.
+static void stream_step() {
+  St& s = *g;
+  uint64_t h = hash_mix(s.sseed, s.sstep++);
+  int m = s.smag[h % (uint64_t)s.nsm], mag = m ? m : 8;
+  St::StreamMag& sm = s.sm[m];
+  s.stream_packets++;
+  if (sm.my_tx < 0 || s.on_air[m] != sm.my_tx || sm.pending.empty()) {
+    // page complete (or displaced by a probe page of the other party in this magazine): next header
+    uint64_t k = hash_mix(s.sseed ^ 0x5EEDu, (uint64_t)m * 1000003u + (uint64_t)sm.count++);
+    if (sm.my_tx >= 0 && (k & 7) == 0) {  // a time filling header now and then
+      s.ctx->count("stream_filler");
+      send_header(mag, 0xFF, false, 0x3F7F);
+      sm.my_tx = -1;
+      return;
+    }
+    sm.pos = (sm.pos + 1 + ((((k >> 3) & 3) == 0 && s.spages > 2) ? 1 : 0)) % s.spages;  // never the same number twice in a row
+    bool erase = ((k >> 5) % 3) == 0;
+    int nrows = (int)((k >> 8) % (uint64_t)(s.srows + 1));
+    bool used[25] = {false};
+    sm.pending.clear();
+    for (int i = 0; i < nrows; i++) used[1 + (hash_mix(k, (uint64_t)i) % 9)] = true;  // a few of rows 1-9: transmissions overlap
+    for (int y = 1; y <= 9; y++) if (used[y]) sm.pending.push_back(y);
+    send_header(mag, 0x90 + sm.pos, erase, 0);
+    sm.my_tx = s.on_air[m];
+    return;
+  }
+  int y = sm.pending.front(); sm.pending.erase(sm.pending.begin());
+  const St::TxPage& t = s.txs[(size_t)sm.my_tx];
+  char txt[64]; uint8_t chars[40];
+  snprintf(txt, sizeof txt, "S%03X T%04d R%02d ", t.pgno, t.serial, y);
+  size_t n = strlen(txt);
+  for (size_t i = 0; i < 40; i++) chars[i] = (uint8_t)(i < n ? txt[i] : 'A' + (t.serial + (int)i) % 26);
+  send_row(mag, y, chars);
+}
+
 static void decode_frame(std::vector<vbi_sliced>& fr) {
   St& s = *g;
   if (s.ctx->failed) { fr.clear(); return; }
@@ -359,12 +645,14 @@ static void decode_frame(std::vector<vbi_sliced>& fr) {
   vbi_sliced* heap = fr.empty() ? nullptr : new vbi_sliced[fr.size()];
   for (size_t i = 0; i < fr.size(); i++) heap[i] = fr[i];
   budget_begin("vbi_decode", 20000000);
+  s.ttx_ev.clear();
   s.in_decode = true;
   { SutScope ss; vbi_decode(s.dec, heap, (int)fr.size(), s.ts); }
   s.in_decode = false;
   budget_end();
   delete[] heap;
   fr.clear();
+  check_ttx_events();
 }
 static vbi_sliced sl_ttx(const uint8_t b[42], int line) {
   vbi_sliced x; memset(&x, 0, sizeof x); x.id = VBI_SLICED_TELETEXT_B; x.line = (uint32_t)line; memcpy(x.data, b, 42); return x;
@@ -388,7 +676,16 @@ struct C11 : World {
   const char* name() const override { return "c11"; }
   const char* property() const override { return "C11"; }
 
-  static int gen_mask(Rng& r, const int* hot, int nhot) {
+  static int gen_mask(Rng& r, const int* hot, int nhot, bool stream = false) {
+    if (stream) {
+      // the last clause divides the handlers into those that request TTX_PAGE and those that do not: make both kinds
+      // common, so that the union over TTX_PAGE comes and goes beside consumers of every other service
+      static const int other[] = {VBI_EVENT_CAPTION, VBI_EVENT_NETWORK, VBI_EVENT_TRIGGER, VBI_EVENT_ASPECT, VBI_EVENT_PROG_INFO,
+                                  VBI_EVENT_NETWORK_ID, VBI_EVENT_LOCAL_TIME, VBI_EVENT_PROG_ID};
+      unsigned c = (unsigned)r.below(100);
+      if (c < 14) return VBI_EVENT_TTX_PAGE;
+      if (c < 28) { int m = 0, n = 1 + (int)r.below(3); for (int i = 0; i < n; i++) m |= other[r.below(8)]; return m; }
+    }
     static const int bits[] = {VBI_EVENT_CLOSE, VBI_EVENT_TTX_PAGE, VBI_EVENT_CAPTION, VBI_EVENT_NETWORK, VBI_EVENT_TRIGGER, 0x20, VBI_EVENT_ASPECT,
                                VBI_EVENT_PROG_INFO, VBI_EVENT_NETWORK_ID, 0x200, VBI_EVENT_LOCAL_TIME, VBI_EVENT_PROG_ID};
     unsigned k = (unsigned)r.below(100);
@@ -412,12 +709,23 @@ struct C11 : World {
     int tasks = r.chance(1, 3) ? 2 : 1;
     p.knobs["tasks"] = tasks;
     p.knobs["cc_style"] = (int64_t)r.below(4);
+    // about half of the runs carry the continuous Teletext transmission ("ttx" ops)
+    bool stream = r.chance(1, 2);
+    if (stream) {
+      p.knobs["stream"] = 1 + (int64_t)(r.next() >> 2);
+      int nm = 1 + (int)r.below(3); int64_t mags = 0;
+      for (int i = 0; i < nm; i++) mags |= (int64_t)1 << r.below(8);  // bit m = magazine m (0 = magazine 8); 1 and 2 are shared with the probe pages
+      p.knobs["smags"] = mags;
+      p.knobs["spages"] = 2 + (int64_t)r.below(3);
+      p.knobs["srows"] = 1 + (int64_t)r.below(4);
+    }
     bool scripted = r.chance(2, 3);  // a third of the runs: no re-entrancy at all (plain histories)
     unsigned enabled = (unsigned)r.below(1u << A_N); if (!enabled) enabled = 1u << r.below(A_N);
     // event types of this run: a few "hot" bits so that several handlers wait for the same event
     int hot[4]; int nhot = 1 + (int)r.below(4);
     static const int feedbits[] = {1, 2, 3, 4, 6, 7, 8, 10, 11};  // TTX_PAGE CAPTION NETWORK TRIGGER ASPECT PROG_INFO NETWORK_ID LOCAL_TIME PROG_ID
     for (int i = 0; i < nhot; i++) hot[i] = r.chance(2, 3) ? feedbits[r.below(9)] : (int)r.below(12);
+    if (stream) hot[0] = 1;  // TTX_PAGE
     auto mk = [&](int task, const char* kind, std::vector<int64_t> a) { Op o; o.task = task; o.kind = kind; o.a = a; p.ops.push_back(o); };
     // scripts first (global)
     if (scripted) {
@@ -428,25 +736,26 @@ struct C11 : World {
         int tsel = t < 25 ? T_SELF : t < 50 ? T_NEXT : t < 65 ? T_PREV : t < 70 ? T_FIRST : t < 75 ? T_LAST : T_ID0 + (int)r.below((uint64_t)nh);
         int nth = (int)r.below(3);
         int period = r.chance(1, 2) ? 0 : 1 + (int)r.below(3);
-        mk(0, "script", {(int64_t)r.below((uint64_t)nh), nth, period, action, tsel, gen_mask(r, hot, nhot)});
+        mk(0, "script", {(int64_t)r.below((uint64_t)nh), nth, period, action, tsel, gen_mask(r, hot, nhot, stream)});
       }
     }
     int ninit = 1 + (int)r.below((uint64_t)nh);
     for (int i = 0; i < ninit; i++) {
-      int m = gen_mask(r, hot, nhot); if (m == 0) m = 1 << hot[0];
+      int m = gen_mask(r, hot, nhot, stream); if (m == 0) m = 1 << hot[0];
       mk(0, r.chance(1, 8) ? "add" : "reg", {(int64_t)r.below((uint64_t)nh), m});
     }
     int n = tier == "thorough" ? 10 + (int)r.below(70) : 6 + (int)r.below(34);
     for (int i = 0; i < n; i++) {
       int task = tasks == 2 && r.chance(1, 3) ? 1 : 0;
+      if (stream && r.chance(3, 10)) { mk(task, "ttx", {1 + (int64_t)r.below(12)}); continue; }
       unsigned k = (unsigned)r.below(100);
       if (k < 36) mk(task, "send", {hot[r.below((uint64_t)nhot)]});
       else if (k < 40) mk(task, "send", {(int64_t)r.below(12)});
       else if (k < 58) mk(task, "feed", {(int64_t)r.below(7), (int64_t)r.below(16)});
       else if (k < 70) mk(task, "page", {(int64_t)r.below(3)});
-      else if (k < 84) mk(task, "reg", {(int64_t)r.below((uint64_t)nh), gen_mask(r, hot, nhot)});
+      else if (k < 84) mk(task, "reg", {(int64_t)r.below((uint64_t)nh), gen_mask(r, hot, nhot, stream)});
       else if (k < 91) mk(task, "unreg", {(int64_t)r.below((uint64_t)nh)});
-      else if (k < 96) mk(task, "add", {(int64_t)r.below((uint64_t)nh), gen_mask(r, hot, nhot)});
+      else if (k < 96) mk(task, "add", {(int64_t)r.below((uint64_t)nh), gen_mask(r, hot, nhot, stream)});
       else mk(task, "remove", {(int64_t)r.below((uint64_t)nh)});
     }
     return p;
@@ -549,24 +858,24 @@ struct C11 : World {
   static void page(int task, int nrows) {
     St& s = *g;
     int k = s.page_ctr[task]++;
-    if (k > 98) { s.ctx->count("probe_skipped"); return; }
+    if (k > 89) { s.ctx->count("probe_skipped"); return; }  // page numbers x90-x99 belong to the continuous transmission
     int mag = 1 + task, pg = to_bcd(k), pgno = mag * 256 + pg;
     bool on0 = s.ttx_on; int flips0 = s.ttx_flips;
     s.ctx->log("probe page %x model ttx=%d", pgno, on0);
+    // every packet also passes through the acquisition reference (send_header / model_row): the continuous
+    // transmission of the other party may use this magazine too and then cuts the probe page short
     std::vector<vbi_sliced> fr;
-    uint8_t text[32]; header_text(pgno, text);
-    ttx::Packet h = ttx::header(mag, pg, 0, 0, text);
-    fr.push_back(sl_ttx(h.b, 7)); decode_frame(fr); s.sched->yield();
-    for (int y = 1; y <= 1 + nrows && !s.ctx->failed; y++) {
+    send_header(mag, pg, false, 0); s.sched->yield();
+    if (s.ctx->failed) return;
+    for (int y = 1; y <= 1 + nrows && !s.ctx->failed; y++) {  // the rows in one frame: no event can be raised between them
       uint8_t chars[40]; memset(chars, 0x20, 40);
       char t[41]; snprintf(t, sizeof t, "PROBE %03X ROW %02d", pgno, y); memcpy(chars, t, strlen(t));
+      model_row(mag, y, chars);
       ttx::Packet rw = ttx::row(mag, y, chars);
       fr.push_back(sl_ttx(rw.b, 7 + y));
     }
     decode_frame(fr); s.sched->yield();
-    header_text(mag * 256 + 0xFF, text);
-    ttx::Packet f = ttx::header(mag, 0xFF, 0x3F7F, 0, text);  // time filling header terminates the page
-    fr.push_back(sl_ttx(f.b, 7)); decode_frame(fr);
+    send_header(mag, 0xFF, false, 0x3F7F);  // time filling header terminates the page
     if (s.ctx->failed) return;
     int cached; { SutScope ss; cached = vbi_is_cached(s.dec, pgno, VBI_ANY_SUBNO); }
     vbi_page vp; vbi_bool fetched;
@@ -597,6 +906,12 @@ struct C11 : World {
     st.nh = (int)absmod(plan.knob("handlers", NID) - 1, NID) + 1;
     int tasks = (int)absmod(plan.knob("tasks", 1) - 1, 2) + 1;
     st.cc_style = (int)absmod(plan.knob("cc_style"), 4);
+    st.sseed = (uint64_t)plan.knob("stream");
+    { int64_t mags = plan.knob("smags") & 0xFF; int n = 0;
+      for (int m = 0; m < 8; m++) if (mags >> m & 1) st.smag[n++] = m;
+      if (n) st.nsm = n; }  // none given: magazine 3
+    st.spages = 2 + (int)absmod(plan.knob("spages", 2) - 2, 8);
+    st.srows = 1 + (int)absmod(plan.knob("srows", 3) - 1, 8);
     Sched sched(ctx, (uint64_t)plan.knob("sched_seed", (int64_t)plan.seed), (Policy)absmod(plan.knob("policy"), 3), (int)plan.knob("pparam"));
     st.sched = &sched;
     { SutScope ss; st.dec = vbi_decoder_new(); }
@@ -630,6 +945,11 @@ struct C11 : World {
             ctx.log("api feed %d/%d", (int)absmod(op->arg(0), 7), (int)absmod(op->arg(1), 16));
             feed((int)absmod(op->arg(0), 7), (int)absmod(op->arg(1), 16));
           } else if (op->kind == "page") page(t, (int)absmod(op->arg(0), 3));
+          else if (op->kind == "ttx") {
+            int n = (int)absmod(op->arg(0), 17);
+            ctx.log("api ttx %d", n);
+            for (int i = 0; i < n && !ctx.failed; i++) { stream_step(); sched.yield(); }
+          }
           sched.yield();
         }
       });
@@ -638,6 +958,16 @@ struct C11 : World {
     if (rc == 2) ctx.fail("harness:budget", "scheduler budget exhausted");
     if (rc == 1) ctx.fail("harness:deadlock", "tasks blocked");
     ctx.state(sched.interleaving_hash());
+    // audit: for every page number ever transmitted the cache holds what the gated reference receiver holds, no more
+    if (!ctx.failed && rc == 0)
+      for (int pgno : st.sent_pgnos) {
+        St::Image img; { auto it = st.stored.find(pgno); if (it != st.stored.end()) img = it->second; }
+        std::string cls, why;
+        if (!cache_shows(pgno, img, cls, why)) {
+          ctx.fail(cls == "oracle:ttx-not-acquired" ? "oracle:ttx-page-vanished" : cls.c_str(), "audit at the end of the run, page %x: %s", pgno, why.c_str());
+          break;
+        }
+      }
     { SutScope ss; vbi_decoder_delete(st.dec); st.dec = nullptr; }
     // the trigger parser calls mktime(); glibc keeps one private copy of the time zone name which it re-allocates on
     // such calls: move that block out of the code under test's account
@@ -650,6 +980,13 @@ struct C11 : World {
     ctx.count("cb_actions", st.cb_actions);
     ctx.count("ttx_flips", st.ttx_flips);
     ctx.count("probes_checked", st.probes_checked);
+    ctx.count("stream_packets", st.stream_packets);
+    ctx.count("ttx_pages_must", st.pages_must);
+    ctx.count("ttx_pages_uncertain", st.pages_may);
+    ctx.count("ttx_pages_uncertain_stored", st.pages_may_stored);
+    ctx.count("ttx_pages_header_in_gap", st.pages_hdr_in_gap);
+    ctx.count("ttx_rows_in_gap", st.rows_in_gap);
+    ctx.count("ttx_content_checks", st.content_checks);
     ctx.nontrivial = st.deliveries_multi >= 2 && st.calls >= 5 && (st.cb_actions >= 1 || st.scripts.empty());
     ctx.sim_seconds = st.ts - 7000.0;
     g = nullptr;
@@ -667,7 +1004,7 @@ extern "C" void __wrap_vbi_send_event(vbi_decoder* vbi, vbi_event* ev) {
   { HarnessScope hs;
     nested = g->in_delivery;
     if (nested) g->ctx->fail("harness:nested-raise", "vbi_send_event entered while a delivery is in progress");
-    else delivery_begin(ev->type); }
+    else delivery_begin(ev); }
   if (nested) return;  // the real function would dead-lock on event_mutex
   __real_vbi_send_event(vbi, ev);
   { HarnessScope hs; if (g) delivery_end(); }
